@@ -407,6 +407,26 @@ CHECKS = {
         "two inputs per task, every operation."),
   technique="TLC protocol model + exhaustive fault/kill injection at every recorded file operation + TLC trace validation",
  ),
+ "C13": dict(
+  level="model_checking",
+  design_ref="DESIGN.md section 5, C13",
+  text=("CheckerSpec enumerates write path (writer, appended writer, "
+        "export, filtered export, compress, repack, condense, split part, "
+        "join) x every set of at most two of twelve seeded corruptions x "
+        "copy by compress/repack, with the violation classes that must be "
+        "reported (TLC checks closure: no corruption, no expected "
+        "violation). Each case is produced by the real write path from a "
+        "generated dataset with complete metadata, corrupted with raw h5py "
+        "and given to check_dataset: clean files must have no violation "
+        "(and dclab-verify-dataset no violation exit code), every applied "
+        "corruption's class must be among the violations, and compressed/"
+        "repacked copies must receive the same violations."),
+  note=("violation classes are recognised by a keyword of the message; "
+        "keys the writer re-derives on close (ROI size, samples per event) "
+        "are repaired by a copy, which is not held against it; quick: all "
+        "27 clean cases + a third of the 1.3k corrupted ones."),
+  technique="TLC-enumerated write path x corruption product replayed on real files",
+ ),
 }
 
 NOT_YET = "check not built yet (work in progress; see DESIGN.md section 5)"
